@@ -1005,6 +1005,25 @@ def render_extract(ex, vac=False, strip_proof=False):
         if toks[s_][1] != '{':
             inner = '{ ' + inner + ' }'
         log.append({'rule': 'R6', 'lifted_closure': kidx, 'of': name, 'closure_header': join(toks[b0:b1 + 1]), 'as': sig})
+        # the first parameters of the lifted signature stand for the closure's own parameters: if those were renamed in the
+        # source (plain identifiers, same number), the signature and the contract are renamed accordingly
+        hdr_params = [re.sub(r'^mut\s+', '', x.split(':')[0].strip()) for x in split_params(join(toks[b0 + 1:b1]))]
+        po_ = sig.index('(')
+        sig_params = split_params(sig[po_ + 1:sig.rindex(')', 0, (sig.index('->') if '->' in sig else len(sig)))])
+        sig_names = [re.sub(r'^mut\s+', '', x.split(':')[0].strip()) for x in sig_params][:len(hdr_params)]
+        if len(sig_names) == len(hdr_params) and all(re.match(r'^[A-Za-z_][A-Za-z0-9_]*$', x) for x in hdr_params + sig_names):
+            ren = [(a_, b_) for a_, b_ in zip(sig_names, hdr_params) if a_ != b_ and b_ != '_' and not b_.startswith('__cp')]
+            if ren:
+                import copy as _copy
+                ex = _copy.copy(ex)
+                def _rn(t_):
+                    for a_, b_ in ren:
+                        t_ = re.sub(r'\b%s\b' % re.escape(a_), b_, t_)
+                    return t_
+                sig = _rn(sig)
+                ex.contract = [_rn(l_) for l_ in ex.contract]
+                # (splices inside the body keep their names: they may refer to inner bindings that shadow the parameter)
+                log.append({'rule': 'R7', 'note': 'closure parameters renamed in the source; lifted signature and contract renamed accordingly', 'renamed': ren})
         m_ = re.match(r'\s*([A-Za-z_][A-Za-z0-9_]*)', sig)
         name = m_.group(1)
         header = ('async fn ' if lift_is_async else 'fn ') + sig + ('__vac' if False else '')
